@@ -327,3 +327,321 @@ Proof.
   - apply nth_error_nth'. unfold n in Hin. lia.
   - exact Hm.
 Qed.
+
+(* ================= tasks that are run more than once ================= *)
+
+Lemma last_in_or_nil {A} (l : list (list A)) : last l [] = [] \/ In (last l []) l.
+Proof.
+  induction l as [|x [|y r] IH]; simpl; auto.
+  destruct IH as [E|I]; [left; exact E|right; right; exact I].
+Qed.
+
+Definition runs_ok (reg : nat) (runs : list (list (nat * Z))) : Prop :=
+  forall l, In l runs -> counters_ok reg l.
+
+(* the value a task scope ends with: that of its LAST run *)
+Definition after_runs (old : Z) (m : nat) (runs : list (list (nat * Z))) : Z :=
+  match runs with [] => old | _ => wrap (sum_incs m (last runs [])) end.
+
+Lemma after_runs_cons old m l r :
+  after_runs old m (l :: r) = after_runs (wrap (sum_incs m l)) m r.
+Proof. destruct r; reflexivity. Qed.
+
+(* ---------------- local executor: the scope is reset before every run ---------------- *)
+Lemma local_runs_spec t : forall runs w w1 r,
+  wf w -> (t < plen w)%nat -> runs_ok (wreg w) runs ->
+  local_runs w t runs = (w1, r) ->
+  r = Ok tt /\ wf w1 /\ shape w w1 /\
+  (forall m, peek w1 t m = after_runs (peek w t m) m runs) /\
+  (forall k m, k <> t -> slot_of w1 k m = slot_of w k m /\ peek w1 k m = peek w k m).
+Proof.
+  induction runs as [|l runs IH]; intros w w1 r W Ht Ck R; simpl in R.
+  - inversion R; subst. splits; auto using shape_refl.
+  - destruct (local_task w t l) as [wa ra] eqn:L.
+    destruct (local_task_spec _ _ _ _ _ W Ht (Ck l (or_introl eq_refl)) L) as (-> & Wa & Sha & Pa & Fa).
+    assert (Cka : runs_ok (wreg wa) runs).
+    { intros l' Hin. destruct Sha as (R' & _). rewrite R'. apply Ck. right. exact Hin. }
+    destruct (IH wa w1 r Wa (shape_plen _ _ _ Sha Ht) Cka R) as (-> & W1 & Sh1 & P1 & F1).
+    splits; auto.
+    + eapply shape_trans; eauto.
+    + intro m. rewrite P1, Pa. symmetry. apply after_runs_cons.
+    + intros k m N. destruct (F1 k m N) as (A & B). destruct (Fa k m N) as (C & D).
+      split; congruence.
+Qed.
+
+Lemma run_local_tasks_runs_spec : forall tasks w k w1 r,
+  wf w -> (k + length tasks < plen w)%nat ->
+  (forall runs, In runs tasks -> runs_ok (wreg w) runs) ->
+  run_local_tasks_runs w k tasks = (w1, r) ->
+  r = Ok tt /\ wf w1 /\ shape w w1 /\
+  (forall n runs, nth_error tasks n = Some runs ->
+     forall m, peek w1 (S (k + n)) m = after_runs (peek w (S (k + n)) m) m runs) /\
+  (forall j m, (j <= k \/ j > k + length tasks)%nat ->
+               slot_of w1 j m = slot_of w j m /\ peek w1 j m = peek w j m).
+Proof.
+  induction tasks as [|runs tasks IH]; intros w k w1 r W Hk Ck R; simpl in R.
+  - inversion R; subst. splits; auto using shape_refl. intros [|n] l E; discriminate.
+  - destruct (local_runs w (S k) runs) as [wa ra] eqn:L. simpl in Hk.
+    assert (Hsk : (S k < plen w)%nat) by lia.
+    destruct (local_runs_spec _ _ _ _ _ W Hsk (Ck runs (or_introl eq_refl)) L) as (-> & Wa & Sha & Pa & Fa).
+    assert (Hka : (S k + length tasks < plen wa)%nat) by (destruct Sha as (_ & P & _); lia).
+    assert (Cka : forall l', In l' tasks -> runs_ok (wreg wa) l').
+    { intros l' Hin. destruct Sha as (R' & _). rewrite R'. apply Ck. right. exact Hin. }
+    destruct (IH wa (S k) w1 r Wa Hka Cka R) as (-> & W1 & Sh1 & P1 & F1).
+    splits; auto.
+    + eapply shape_trans; eauto.
+    + intros [|n] l' E m; simpl in E.
+      * inversion E; subst l'. rewrite Nat.add_0_r.
+        rewrite (proj2 (F1 (S k) m (or_introl (le_n _)))). apply Pa.
+      * replace (S (k + S n)) with (S (S k + n)) by lia.
+        rewrite (P1 n l' E m). f_equal. apply Fa. lia.
+    + intros j m D. simpl in D.
+      destruct (F1 j m ltac:(lia)) as (A & B). destruct (Fa j m ltac:(lia)) as (C & E).
+      split; congruence.
+Qed.
+
+Lemma last_runs_sum m tasks :
+  wrap (sum_incs m (last_runs tasks)) =
+  wrap (zsum (map (fun runs : list (list (nat * Z)) => wrap (sum_incs m (last runs []))) tasks)).
+Proof.
+  unfold last_runs. rewrite sum_incs_concat, map_map.
+  rewrite <- (wrap_zsum_wrap (map _ tasks)), map_map. reflexivity.
+Qed.
+
+Theorem result_total_local_runs reg tasks :
+  (forall runs, In runs tasks -> runs_ok reg runs) ->
+  exists w, run_local_runs reg tasks = (w, Ok tt) /\ wf w /\
+  forall m, (m < reg)%nat -> peek w 0 m = wrap (sum_incs m (last_runs tasks)).
+Proof.
+  intro Ck. unfold run_local_runs.
+  set (n := length tasks). set (w0 := init reg (S n)).
+  assert (W0 : wf w0) by apply wf_init.
+  assert (P0 : plen w0 = S n) by (unfold plen, w0, init; simpl; rewrite repeat_length; reflexivity).
+  destruct (run_local_tasks_runs w0 0 tasks) as [w1 r1] eqn:R.
+  destruct (run_local_tasks_runs_spec tasks w0 0 w1 r1 W0) as (-> & W1 & Sh1 & P1 & F1); auto.
+  { rewrite P0. unfold n. lia. }
+  assert (S0 : forall m, slot_of w1 0 m = None).
+  { intro m. rewrite (proj1 (F1 0%nat m (or_introl (le_n _)))). apply slot_init. }
+  destruct (merge_tasks w1 (seq 1 n)) as [w2 r2] eqn:M.
+  destruct (merge_tasks_spec (seq 1 n) w1 w2 r2 W1) as (-> & W2 & Sh2 & P2); auto.
+  { destruct Sh1 as (_ & P & _). lia. }
+  { apply private_of_none. exact S0. }
+  { intros t Hin. apply in_seq in Hin. destruct Sh1 as (_ & P & _). split; lia. }
+  exists w2. splits; auto.
+  intros m Hm. rewrite P2 by (destruct Sh1 as (R' & _); rewrite R'; exact Hm).
+  rewrite (peek_none _ _ _ (S0 m)), Z.add_0_l, last_runs_sum. f_equal. f_equal.
+  rewrite <- seq_shift, !map_map.
+  rewrite <- (map_nth_seq tasks []). rewrite map_map. fold n.
+  apply map_ext_in. intros k Hin. apply in_seq in Hin.
+  replace (S k) with (S (0 + k)) by lia.
+  rewrite (P1 k (nth k tasks [])) by (apply nth_error_nth'; unfold n in Hin; lia).
+  rewrite (peek_none w0) by apply slot_init.
+  destruct (nth k tasks []); reflexivity.
+Qed.
+
+(* re-running tasks any number of times leaves the reported total unchanged: it is
+   the total of the run in which every task runs once, with its last increments *)
+Theorem result_total_after_recompute reg tasks :
+  (forall runs, In runs tasks -> runs_ok reg runs) ->
+  exists w w', run_local_runs reg tasks = (w, Ok tt) /\
+               run_local reg (map (fun runs => last runs []) tasks) = (w', Ok tt) /\
+  forall m, (m < reg)%nat -> peek w 0 m = peek w' 0 m.
+Proof.
+  intro Ck.
+  destruct (result_total_local_runs reg tasks Ck) as (w & E & _ & P).
+  destruct (result_total_local reg (map (fun runs => last runs []) tasks)) as (w' & E' & _ & P').
+  { intros l Hin. apply in_map_iff in Hin. destruct Hin as (runs & <- & Hin).
+    destruct (last_in_or_nil runs) as [-> | I]; [intros c n []|apply (Ck runs Hin _ I)]. }
+  exists w, w'. splits; auto. intros m Hm. rewrite (P m Hm), (P' m Hm). reflexivity.
+Qed.
+
+(* ---------------- bigmachine: only a worker that resets its scope reports the last run ---------------- *)
+Lemma reset_nil_frame w i :
+  wf w -> (i < plen w)%nat ->
+  wf (reset_nil w i) /\ shape w (reset_nil w i) /\ (forall m, slot_of (reset_nil w i) i m = None) /\
+  (forall k m, k <> i -> slot_of (reset_nil w i) k m = slot_of w k m /\ peek (reset_nil w i) k m = peek w k m).
+Proof.
+  intros W Hi. destruct (reset_nil_spec w i W Hi) as (W1 & Sh & H & S & O).
+  splits; auto. intros k m N. split; [apply O; exact N|apply peek_ext; auto].
+Qed.
+
+Lemma bigmachine_run_step (wr : bool) w wt rw rd t l w1 r :
+  wf w -> (wt < plen w)%nat -> (rw < plen w)%nat -> (rd < plen w)%nat -> (t < plen w)%nat ->
+  wt <> rw -> wt <> rd -> wt <> t -> rw <> rd -> rw <> t -> rd <> t ->
+  (wr = true \/ forall m, slot_of w wt m = None) -> counters_ok (wreg w) l ->
+  bigmachine_task (let w0 := reset_nil (reset_nil w rw) rd in if wr then reset_nil w0 wt else w0)
+                  wt rw rd t l = (w1, r) ->
+  r = Ok tt /\ wf w1 /\ shape w w1 /\
+  (forall m, (m < wreg w)%nat -> peek w1 t m = wrap (sum_incs m l)) /\
+  (forall k m, k <> wt -> k <> rw -> k <> rd -> k <> t ->
+               slot_of w1 k m = slot_of w k m /\ peek w1 k m = peek w k m).
+Proof.
+  intros W Hwt Hrw Hrd Ht N1 N2 N3 N4 N5 N6 Fr Ck B.
+  destruct (reset_nil_frame w rw W Hrw) as (Wa & Sha & _ & Fa).
+  set (wa := reset_nil w rw) in *.
+  destruct (reset_nil_frame wa rd Wa (shape_plen _ _ _ Sha Hrd)) as (Wb & Shb & _ & Fb).
+  set (wb := reset_nil wa rd) in *.
+  assert (Shab := shape_trans _ _ _ Sha Shb).
+  assert (Fab : forall k m, k <> rw -> k <> rd -> slot_of wb k m = slot_of w k m /\ peek wb k m = peek w k m).
+  { intros k m K1 K2. destruct (Fa k m K1) as (A1 & A2). destruct (Fb k m K2) as (B1 & B2). split; congruence. }
+  cbv zeta in B.
+  set (wc := if wr then reset_nil wb wt else wb) in *.
+  assert (Hc : wf wc /\ shape w wc /\ (forall m, slot_of wc wt m = None) /\
+               (forall k m, k <> wt -> k <> rw -> k <> rd ->
+                  slot_of wc k m = slot_of w k m /\ peek wc k m = peek w k m)).
+  { unfold wc. destruct wr.
+    - destruct (reset_nil_frame wb wt Wb (shape_plen _ _ _ Shab Hwt)) as (Wc & Shc & Sc & Fc).
+      splits; auto.
+      + eapply shape_trans; eauto.
+      + intros k m K1 K2 K3. destruct (Fc k m K1) as (C1 & C2). destruct (Fab k m K2 K3) as (D1 & D2).
+        split; congruence.
+    - destruct Fr as [Fr|Fr]; [discriminate|]. splits; auto.
+      intro m. rewrite (proj1 (Fab wt m N1 N2)). apply Fr. }
+  destruct Hc as (Wc & Shc & Sc & Fc).
+  assert (Ckc : counters_ok (wreg wc) l) by (destruct Shc as (R' & _); rewrite R'; exact Ck).
+  destruct (bigmachine_task_spec wc wt rw rd t l w1 r Wc
+              (shape_plen _ _ _ Shc Hwt) (shape_plen _ _ _ Shc Hrw) (shape_plen _ _ _ Shc Hrd)
+              (shape_plen _ _ _ Shc Ht) N1 N2 N3 N4 N5 N6 Sc Ckc B) as (-> & W1 & Sh1 & P1 & F1).
+  splits; auto.
+  - eapply shape_trans; eauto.
+  - intros m Hm. apply P1. destruct Shc as (R' & _). lia.
+  - intros k m K1 K2 K3 K4. destruct (F1 k m K1 K2 K3 K4) as (A & B'). destruct (Fc k m K1 K2 K3) as (C & D).
+    split; congruence.
+Qed.
+
+Lemma bigmachine_runs_spec (wr : bool) : forall runs w wt rw rd t w1 r,
+  wf w -> (wt < plen w)%nat -> (rw < plen w)%nat -> (rd < plen w)%nat -> (t < plen w)%nat ->
+  wt <> rw -> wt <> rd -> wt <> t -> rw <> rd -> rw <> t -> rd <> t ->
+  (wr = true \/ ((forall m, slot_of w wt m = None) /\ (length runs <= 1)%nat)) ->
+  runs_ok (wreg w) runs ->
+  bigmachine_runs wr w wt rw rd t runs = (w1, r) ->
+  r = Ok tt /\ wf w1 /\ shape w w1 /\
+  (forall m, (m < wreg w)%nat -> peek w1 t m = after_runs (peek w t m) m runs) /\
+  (forall k m, k <> wt -> k <> rw -> k <> rd -> k <> t ->
+               slot_of w1 k m = slot_of w k m /\ peek w1 k m = peek w k m).
+Proof.
+  induction runs as [|l runs IH]; intros w wt rw rd t w1 r W Hwt Hrw Hrd Ht N1 N2 N3 N4 N5 N6 Cond Ck B.
+  - simpl in B. inversion B; subst. splits; auto using shape_refl.
+  - change (bigmachine_runs wr w wt rw rd t (l :: runs)) with
+      (match bigmachine_task (let w0 := reset_nil (reset_nil w rw) rd in if wr then reset_nil w0 wt else w0)
+               wt rw rd t l with
+       | (w1, Ok _) => bigmachine_runs wr w1 wt rw rd t runs
+       | (w1, Panic) => (w1, Panic)
+       end) in B.
+    destruct (bigmachine_task _ wt rw rd t l) as [wa ra] eqn:St.
+    assert (Fr : wr = true \/ forall m, slot_of w wt m = None).
+    { destruct Cond as [C|(C & _)]; auto. }
+    destruct (bigmachine_run_step wr w wt rw rd t l wa ra W Hwt Hrw Hrd Ht N1 N2 N3 N4 N5 N6 Fr
+                (Ck l (or_introl eq_refl)) St) as (-> & Wa & Sha & Pa & Fa).
+    destruct Cond as [C|(C & Len)].
+    + assert (Cka : runs_ok (wreg wa) runs).
+      { intros l' Hin. destruct Sha as (R' & _). rewrite R'. apply Ck. right. exact Hin. }
+      destruct (IH wa wt rw rd t w1 r Wa (shape_plen _ _ _ Sha Hwt) (shape_plen _ _ _ Sha Hrw)
+                  (shape_plen _ _ _ Sha Hrd) (shape_plen _ _ _ Sha Ht) N1 N2 N3 N4 N5 N6 (or_introl C) Cka B)
+        as (-> & W1 & Sh1 & P1 & F1).
+      splits; auto.
+      * eapply shape_trans; eauto.
+      * intros m Hm. rewrite P1 by (destruct Sha as (R' & _); lia). rewrite (Pa m Hm).
+        symmetry. apply after_runs_cons.
+      * intros k m K1 K2 K3 K4. destruct (F1 k m K1 K2 K3 K4) as (A & B'). destruct (Fa k m K1 K2 K3 K4) as (C' & D).
+        split; congruence.
+    + destruct runs; [|simpl in Len; lia]. simpl in B. inversion B; subst. splits; auto.
+Qed.
+
+Lemma run_bigmachine_tasks_runs_spec (wr : bool) : forall tasks w k w1 r,
+  wf w -> (4 * (k + length tasks) < plen w)%nat ->
+  (forall j m, (4 * k < j)%nat -> slot_of w j m = None) ->
+  (wr = true \/ forall runs, In runs tasks -> (length runs <= 1)%nat) ->
+  (forall runs, In runs tasks -> runs_ok (wreg w) runs) ->
+  run_bigmachine_tasks_runs wr w k tasks = (w1, r) ->
+  r = Ok tt /\ wf w1 /\ shape w w1 /\
+  (forall n runs, nth_error tasks n = Some runs ->
+     forall m, (m < wreg w)%nat -> peek w1 (1 + 4 * (k + n)) m = after_runs 0 m runs) /\
+  (forall j m, (j <= 4 * k)%nat -> slot_of w1 j m = slot_of w j m /\ peek w1 j m = peek w j m).
+Proof.
+  induction tasks as [|runs tasks IH]; intros w k w1 r W Hk Fresh Cond Ck R.
+  - simpl in R. inversion R; subst. splits; auto using shape_refl. intros [|n] l E; discriminate.
+  - simpl in Hk.
+    change (run_bigmachine_tasks_runs wr w k (runs :: tasks)) with
+      (match bigmachine_runs wr w (2 + 4 * k) (3 + 4 * k) (4 + 4 * k) (1 + 4 * k) runs with
+       | (w1, Ok _) => run_bigmachine_tasks_runs wr w1 (S k) tasks
+       | (w1, Panic) => (w1, Panic)
+       end) in R.
+    destruct (bigmachine_runs wr w (2 + 4 * k) (3 + 4 * k) (4 + 4 * k) (1 + 4 * k) runs) as [wa ra] eqn:B.
+    assert (Cond0 : wr = true \/ ((forall m, slot_of w (2 + 4 * k)%nat m = None) /\ (length runs <= 1)%nat)).
+    { destruct Cond as [C|C]; [left; exact C|right]. split; [intro m; apply Fresh; lia|apply C; left; reflexivity]. }
+    destruct (bigmachine_runs_spec wr runs w (2 + 4 * k)%nat (3 + 4 * k)%nat (4 + 4 * k)%nat (1 + 4 * k)%nat wa ra W
+                ltac:(lia) ltac:(lia) ltac:(lia) ltac:(lia)
+                ltac:(lia) ltac:(lia) ltac:(lia) ltac:(lia) ltac:(lia) ltac:(lia)
+                Cond0 (Ck runs (or_introl eq_refl)) B)
+      as (-> & Wa & Sha & Pa & Fa).
+    assert (Hka : (4 * (S k + length tasks) < plen wa)%nat) by (destruct Sha as (_ & P & _); lia).
+    assert (Fra : forall j m, (4 * S k < j)%nat -> slot_of wa j m = None).
+    { intros j m Hj. rewrite (proj1 (Fa j m ltac:(lia) ltac:(lia) ltac:(lia) ltac:(lia))).
+      apply Fresh. lia. }
+    assert (Conda : wr = true \/ forall runs', In runs' tasks -> (length runs' <= 1)%nat).
+    { destruct Cond as [C|C]; [left; exact C|right]. intros runs' Hin. apply C. right. exact Hin. }
+    assert (Cka : forall l', In l' tasks -> runs_ok (wreg wa) l').
+    { intros l' Hin. destruct Sha as (R' & _). rewrite R'. apply Ck. right. exact Hin. }
+    destruct (IH wa (S k) w1 r Wa Hka Fra Conda Cka R) as (-> & W1 & Sh1 & P1 & F1).
+    splits; auto.
+    + eapply shape_trans; eauto.
+    + intros [|n] l' E m Hm; simpl in E.
+      * inversion E; subst l'.
+        rewrite (proj2 (F1 (1 + 4 * (k + 0))%nat m ltac:(lia))).
+        replace (1 + 4 * (k + 0))%nat with (1 + 4 * k)%nat by lia.
+        rewrite (Pa m Hm). f_equal. apply peek_none. apply Fresh. lia.
+      * replace (1 + 4 * (k + S n))%nat with (1 + 4 * (S k + n))%nat by lia.
+        eapply P1; eauto. destruct Sha as (R' & _). lia.
+    + intros j m Hj.
+      destruct (F1 j m ltac:(lia)) as (A & B'). destruct (Fa j m ltac:(lia) ltac:(lia) ltac:(lia) ltac:(lia)) as (C & E).
+      split; congruence.
+Qed.
+
+(* with a worker that resets its task scope before every run (the repaired code), or when
+   no task runs twice, the bigmachine path reports each task's last run once *)
+Theorem result_total_bigmachine_runs (wr : bool) reg tasks :
+  (wr = true \/ forall runs, In runs tasks -> (length runs <= 1)%nat) ->
+  (forall runs, In runs tasks -> runs_ok reg runs) ->
+  exists w, run_bigmachine_runs wr reg tasks = (w, Ok tt) /\ wf w /\
+  forall m, (m < reg)%nat -> peek w 0 m = wrap (sum_incs m (last_runs tasks)).
+Proof.
+  intros Cond Ck. unfold run_bigmachine_runs.
+  set (n := length tasks). set (w0 := init reg (1 + 4 * n)).
+  assert (W0 : wf w0) by apply wf_init.
+  assert (P0 : plen w0 = (1 + 4 * n)%nat) by (unfold plen, w0, init; cbn [wpool]; apply repeat_length).
+  destruct (run_bigmachine_tasks_runs wr w0 0 tasks) as [w1 r1] eqn:R.
+  destruct (run_bigmachine_tasks_runs_spec wr tasks w0 0 w1 r1 W0) as (-> & W1 & Sh1 & P1 & F1); auto.
+  { rewrite P0. unfold n. lia. }
+  { intros j m _. apply slot_init. }
+  assert (S0 : forall m, slot_of w1 0 m = None).
+  { intro m. rewrite (proj1 (F1 0%nat m ltac:(lia))). apply slot_init. }
+  destruct (merge_tasks w1 (map (fun k => (1 + 4 * k)%nat) (seq 0 n))) as [w2 r2] eqn:M.
+  destruct (merge_tasks_spec (map (fun k => (1 + 4 * k)%nat) (seq 0 n)) w1 w2 r2 W1) as (-> & W2 & Sh2 & P2); auto.
+  { destruct Sh1 as (_ & P & _). lia. }
+  { apply private_of_none. exact S0. }
+  { intros t Hin. apply in_map_iff in Hin. destruct Hin as (k & <- & Hin). apply in_seq in Hin.
+    destruct Sh1 as (_ & P & _). split; lia. }
+  exists w2. splits; auto.
+  intros m Hm. rewrite P2 by (destruct Sh1 as (R' & _); rewrite R'; exact Hm).
+  rewrite (peek_none _ _ _ (S0 m)), Z.add_0_l, last_runs_sum. f_equal. f_equal.
+  rewrite !map_map.
+  rewrite <- (map_nth_seq tasks []). rewrite map_map. fold n.
+  apply map_ext_in. intros k Hin. apply in_seq in Hin.
+  replace (1 + 4 * k)%nat with (1 + 4 * (0 + k))%nat by lia.
+  rewrite (P1 k (nth k tasks [])); [|apply nth_error_nth'; unfold n in Hin; lia|exact Hm].
+  destruct (nth k tasks []); reflexivity.
+Qed.
+
+(* the code as it is (no reset on the worker): a task run twice by the same worker is
+   counted twice.  One task, two identical runs adding 21 to counter 1: 42 reported. *)
+Theorem bigmachine_recompute_overcounts_refuted :
+  exists tasks,
+    (forall runs, In runs tasks -> runs_ok 2 runs) /\
+    let '(w, r) := run_bigmachine_runs false 2 tasks in
+    r = Ok tt /\ peek w 0 1 = 42 /\ wrap (sum_incs 1 (last_runs tasks)) = 21.
+Proof.
+  exists [[[(1%nat, 21)]; [(1%nat, 21)]]]. split.
+  - intros runs [<-|[]] l [<-|[<-|[]]] c n [E|[]]; inversion E; subst; lia.
+  - vm_compute. auto.
+Qed.
